@@ -21,8 +21,10 @@ def gen_ops(rng, n=None):
             ops.append(["sim_keeplog"])
         elif r < 0.82:
             ops.append(["backward", rng.random() < 0.5, rng.random() < 0.6])
-        elif r < 0.92:
+        elif r < 0.90:
             ops.append(["reverse"])
+        elif r < 0.95:
+            ops.append(["reload"])     # write_simple_json + read_simple_json into the same project object
         else:
             ops.append(["init"])
     return ops
